@@ -108,6 +108,54 @@ def islice_stop(iterable, stop):
         count += 1
 
 
+def takewhile2(predicate, iterable):
+    for item in iterable:
+        if not predicate(item):
+            return
+        yield item
+
+
+def dropwhile2(predicate, iterable):
+    dropping = True
+    for item in iterable:
+        if dropping and predicate(item):
+            continue
+        dropping = False
+        yield item
+
+
+def repeat1(item):
+    while True:
+        yield item
+
+
+def repeat2(item, times):
+    for _ in range(times):
+        yield item
+
+
+def count2(start, step):
+    value = start
+    while True:
+        yield value
+        value = value + step
+
+
+def starmap2(function, iterable):
+    for arguments in iterable:
+        yield function(*arguments)
+
+
+def islice3(iterable, start, stop):
+    position = 0
+    for item in iterable:
+        if stop is not None and position >= stop:
+            return
+        if position >= start:
+            yield item
+        position += 1
+
+
 def compress2(data, selectors):
     for item, flag in zip(data, selectors):
         if flag:
@@ -134,7 +182,7 @@ class FuncInfo:
         self.decorators = decs
         self.is_static = 'staticmethod' in decs
         self.is_classmethod = 'classmethod' in decs
-        self.is_property = 'property' in decs
+        self.is_property = 'property' in decs or any(d.split('.')[-1] == 'cached_property' for d in decs)
         self.is_abstract = any(d.endswith('abstractmethod') for d in decs)
 
     def __repr__(self):
@@ -434,6 +482,9 @@ class Program:
         if mod is None:
             return None
         r = self.resolve_name(mod, name)
+        if r is not None and r[0] == 'const':
+            # name = SomeClass.method  /  name = other_function  (an alias kept for callers of the old name)
+            r = self.resolve_expr(r[2], r[1]) if isinstance(r[1], (ast.Name, ast.Attribute)) else None
         return r[1] if r is not None and r[0] == 'func' else None
 
     def cls(self, qualname):
